@@ -66,3 +66,27 @@ def documented_decode_error(e):
     uslp = tuple(v for v in vars(ud).values() if isinstance(v, type) and issubclass(v, Exception))
     return isinstance(e, (ValueError, InvalidTcCrc16, InvalidTmCrc16, InvalidCrc, TlvTypeMissmatch,
                           UnsupportedCfdpVersion) + uslp)
+
+
+def pack_hands_out_fresh_buffers(ctx, pack, expected, label="pack() hands out an independent buffer each time"):
+    """what a caller does to one pack() result (appending a payload, overwriting an octet) must not leak into the object or
+    into later results"""
+    r1 = pack()
+    try:
+        r1.extend(b"\xa5\x5a\x00")
+        if len(r1) > 3:
+            r1[0] = r1[0] ^ 0xFF if not hasattr(r1[0], "e") else 0
+    except (AttributeError, TypeError):
+        pass            # immutable result: nothing the caller can do to it
+    r2 = pack()
+    ctx.holds(label, r2 == expected, "second pack() returned %d octets, expected %d" % (len(r2), len(expected)))
+
+
+def earlier_result_survives(ctx, check, later_decodes, label="an earlier decoded object is unaffected by later decodes"):
+    """check() re-evaluates the field assertions on an object decoded earlier, after other buffers have been decoded"""
+    for fn in later_decodes:
+        try:
+            fn()
+        except Exception:  # noqa: BLE001
+            pass
+    ctx.holds(label, check())
